@@ -310,11 +310,13 @@ func handle(req map[string]any) (out node) {
 			return
 		}
 		ft := fn.Type()
-		var ps []string
+		var ps, ks []string
 		for i := 0; i < ft.NumIn(); i++ {
 			ps = append(ps, ft.In(i).String())
+			ks = append(ks, ft.In(i).Kind().String())
 		}
 		out["params"] = ps
+		out["kinds"] = ks
 	case "forward":
 		fn, ok := reg.funcs[req["func"].(string)]
 		if !ok {
